@@ -126,7 +126,7 @@ Proof.
   - destruct pushok; cbn; dc_fin.
   - cbn; dc_fin.
   - destruct ((w_epoch w =? 0) || negb (r_rrc s)); cbn; dc_fin.
-  - cbn; dc_fin.
+  - destruct ((w_epoch w =? 0) || (w_ctype w =? ct_ccs)); cbn; dc_fin.
 Qed.
 
 Lemma recv_cases W lease s w :
